@@ -278,8 +278,10 @@ def solve_scipy(
     else:
         status = SolverStatus.FAILED
 
-    # Compute actual objective value (undo negation for maximize)
-    obj_value = float(result.fun)
+    # Compute actual objective value (undo negation for maximize).
+    # Evaluated at the returned point: after an abnormal stop (e.g. L-BFGS-B on an
+    # unbounded problem) result.fun can belong to a different iterate than result.x.
+    obj_value = objective(result.x)
     if problem.sense == "maximize":
         obj_value = -obj_value
 
